@@ -5,7 +5,7 @@ Lean side
   Generated/FreeEnergy.lean   the 21 enthalpy/entropy functors of thermosteam/free_energy.py, TRANSLATED from the
                               source on every run by harness/translate_free_energy.py (`prebuild()` below)
   Model/FreeEnergy.lean       hand model of Chemical._init_energies (wiring for the 3 reference phases and for
-                              phase-locked chemicals), PhaseTPHandle dispatch, `_init_data`'s Sfus, the three
+                              phase-locked chemicals), PhaseTPHandle dispatch, `_init_data`'s Sfus, `_set_phase_ref`, the three
                               ideal mixture models, Mixture.S / xH / xS
   Props/C07.lean              the theorems (ℝ, arbitrary heat-capacity functions)
   Driver/C07.lean             the same definitions evaluated in Float
@@ -158,7 +158,8 @@ def get_chem(spec):
     elif kind == 'set':
         base = get_chem(('db', spec[1], spec[2]))
         c = base.copy(base.ID + '_set')
-        c.Tm = float(spec[3]); c.Tb = float(spec[4])
+        if spec[3] != '-': c.Tm = float(spec[3])
+        if spec[4] != '-': c.Tb = float(spec[4])
     elif kind == 'lock':
         c = tmo.Chemical(spec[1], phase=spec[2], cache=False)
     elif kind == 'synth':
@@ -322,7 +323,8 @@ def deriv_check(f, g, T, h, rtol):
 
 
 def sfus_none_case(c, kind, ph):
-    """is a TypeError of chemical.S(ph, …) explained by the known defect (Sfus is None)?"""
+    """is a TypeError of chemical.S(ph, …) explained by a missing entropy of fusion (Sfus is None)?
+    (DESIGN.md §8 #21, fixed in /repo by 7c3427a: a database chemical must not get here any more)"""
     if kind != 'S' or c.Sfus is not None or c.locked_state: return False
     ref = c.phase_ref
     return (ph == 's' and ref in 'lg') or (ph in 'lg' and ref == 's')
@@ -342,12 +344,18 @@ class Oracle:
         try:
             v = self.s.value(kind, ph, T, P)
         except TypeError as e:
-            if sfus_none_case(self.c, kind, ph):
+            if sfus_none_case(self.c, kind, ph) and self.c.ID == 'Synth':
+                # a blank chemical built without an entropy of fusion: outside the property's quantifier
+                self.tags.append('oracle-skip:blank-chemical-without-Sfus')
+            elif sfus_none_case(self.c, kind, ph):
                 self.fail('solid-entropy:Sfus-None',
                           f'S({ph!r}, {T}, {P}) raises TypeError: Sfus is None (reference phase {self.c.phase_ref!r}); '
                           f'Hfus={self.c.Hfus}, Tm={self.c.Tm} are known, so the entropy of fusion Hfus/Tm is defined')
             else:
                 self.fail(f'unexpected-TypeError:{kind}.{ph}', f'{kind}({ph!r}, {T}, {P}) raises TypeError: {e}')
+            return None
+        except Exception as e:
+            self.fail(f'raises:{type(e).__name__}:{kind}.{ph}', f'{kind}({ph!r}, {T}, {P}) raises {type(e).__name__}: {str(e)[:200]}')
             return None
         if not isinstance(v, float) or not math.isfinite(v):
             self.fail(f'non-finite:{kind}.{ph}', f'{kind}({ph!r}, {T}, {P}) = {v!r}')
@@ -513,7 +521,7 @@ def run_mix(t, emit, failures, tags, idx):
         try:
             pure[kind] = [float(pure_value(c, kind, ph, T, P)) for c in chems]
         except TypeError:
-            pure[kind] = None          # S('s') of a database chemical (known defect): nothing to mix
+            pure[kind] = None          # a pure value cannot be evaluated: nothing to mix
             tags.append('mix-skip:' + kind)
     call = {'H': lambda mol: mix.H(ph, np.array(mol), T, P), 'S': lambda mol: mix.S(ph, np.array(mol), T, P),
             'Cn': lambda mol: mix.Cn(ph, np.array(mol), T)}
@@ -633,13 +641,24 @@ def run_ops(ops):
             else: raise ValueError('unknown op ' + line)
             oracle_evals += o.count
         elif op == 'sfus':
-            # _init_data: Sfus from the constructor arguments
+            # _init_data: Sfus from the stored Hfus and Tm (constructor argument or database value)
             ID, h, tm = t[1], ptok(t[2]), ptok(t[3])
             kw = {}
             if h is not None: kw['Hfus'] = h
             if tm is not None: kw['Tm'] = tm
             c = tmo.Chemical(ID, cache=False, **kw)
-            emit(f'sfus {ftok(h)} {ftok(tm)}', ftok(c.Sfus))
+            emit(f'sfus {ftok(c.Hfus)} {ftok(c.Tm)}', ftok(c.Sfus))
+        elif op == 'phaseref':
+            # _set_phase_ref: default reference phase = phase at T_ref
+            if t[1] == 'db':
+                c = get_chem(('db', t[2], get_chem_default_ref(t[2])))
+            else:
+                kw = {}
+                if t[2] != 'none': kw['Tm'] = float(t[2])
+                if t[3] != 'none': kw['Tb'] = float(t[3])
+                c = tmo.Chemical.blank('Blank', **kw)
+            emit(f'env {fbits(R)} {fbits(c.T_ref)} {fbits(c.P_ref)} {fbits(c.H_ref)}', 'ok')
+            emit(f'phaseref {ftok(c.Tm)} {ftok(c.Tb)}', c.phase_ref)
         elif op == 'fn':
             run_fn(t, emit, failures, tags)
         elif op == 'meta':
@@ -701,7 +720,7 @@ def run_meta(emit):
 def run_impl(case: Case) -> ImplResult:
     model_in, outs, failures, tags, oracle_evals = run_ops(case.ops)
     compared = sum(1 for l in model_in if not l.startswith(('env', 'tab', 'poly')))
-    nontrivial = tuple(case.ops) if compared and (oracle_evals or case.ops[0].startswith(('fn', 'meta', 'sfus'))) else None
+    nontrivial = tuple(case.ops) if compared and (oracle_evals or case.ops[0].startswith(('fn', 'meta', 'sfus', 'phaseref'))) else None
     tags = sorted(set(tags)) + sorted({'op:' + l.split(' ')[0] for l in case.ops})
     return ImplResult(model_in=model_in, outs=outs, failures=failures, tags=tags, nontrivial=nontrivial)
 
@@ -726,6 +745,21 @@ def compare(impl_line, model_line):
     return True
 
 
+def extra_evidence(executed, model_outs):
+    import hashlib
+    gen = core.LEAN / 'ThermoVerif' / 'Generated' / 'FreeEnergy.lean'
+    src = core.REPO / 'thermosteam' / 'free_energy.py'
+    mon = {}
+    for _, res in executed:
+        for t in res.tags:
+            if t.startswith('monitor:'): mon[t] = mon.get(t, 0) + 1
+    return {'universe_bundled_chemicals': list(UNIVERSE),
+            'translated_source_sha256': hashlib.sha256(src.read_bytes()).hexdigest() if src.exists() else None,
+            'generated_lean_sha256': hashlib.sha256(gen.read_bytes()).hexdigest() if gen.exists() else None,
+            'heatcap_law_monitors_cases': dict(sorted(mon.items())),
+            'comparison_mode': 'wiring lines: token-wise, numbers rtol 1e-9 (bit-identical in practice); values: rtol 1e-9 atol 1e-9'}
+
+
 def protect_prefix(case):
     return 1 if case.ops and case.ops[0].startswith('chem') else 0
 
@@ -733,8 +767,9 @@ def protect_prefix(case):
 def disagree_signature(case, res, first):
     l = res.model_in[first] if first < len(res.model_in) else 'length'
     t = l.split(' ')
-    if t[0] in ('wired', 'H', 'S'): return f'disagree:{t[0]}:{" ".join(case.ops[0].split(" ")[1:2])}:{t[1]}' + (t[2] if t[0] == 'wired' else '')
-    if t[0] == 'fn': return 'disagree:fn:' + t[1]
+    if t[0] == 'wired': return f'disagree:wired:{t[1]}.{t[2]}'
+    if t[0] in ('H', 'S'): return f'disagree:value:{t[0]}.{t[1]}'
+    if t[0] in ('fn', 'sig', 'builder'): return f'disagree:{t[0]}:{t[1]}'
     return 'disagree:' + t[0]
 
 
@@ -743,7 +778,7 @@ def search(case, rng, budget_s):
     if not case.ops or not case.ops[0].startswith('chem'): return None
     ops = [case.ops[0]] + oracle_ops(rng, get_chem(tuple(case.ops[0].split(' ')[1:])))
     res = run_impl(Case(ops))
-    bad = [f for f in res.failures if f['signature'] not in ('solid-entropy:Sfus-None', 'dS/dT:external-J-precision')]
+    bad = [f for f in res.failures if f['signature'] != 'dS/dT:external-J-precision']
     return Case(ops, {'failures': [f['what'] for f in bad]}) if bad else None
 
 
@@ -807,7 +842,8 @@ def gen_chem_case(rng):
         base = get_chem(('db', ID, ref))
         Tm = round(base.Tm * rng.uniform(0.7, 1.4), 2)
         Tb = round(min(base.Tb * rng.uniform(0.75, 1.25), 0.93 * (base.Tc or 1e9)), 2)
-        spec = f'set {ID} {ref} {Tm} {Tb}'
+        q = rng.random()
+        spec = f'set {ID} {ref} {Tm if q < 0.7 else "-"} {Tb if q > 0.35 else "-"}'
     elif r < 0.78:
         spec = f'lock {ID} {rng.choice("slg")}'
     else:
@@ -897,9 +933,15 @@ def generate(rng, tier, index, nworkers):
         else:
             c = get_chem(g)
             yield Case([f'chem db {g[1]} {g[2]}', 'wiring'] + oracle_ops(rng, c), {})
+    for j, ID in enumerate(UNIVERSE):
+        if j % nworkers == index: yield Case([f'phaseref db {ID}'], {})
     for _ in range(n):
         r = rng.random()
-        if r < 0.55: yield gen_chem_case(rng)
+        if r < 0.03:
+            tm = rng.choice(['none', '0.0', '298.15', repr(round(rng.uniform(100, 500), 2))])
+            tb = rng.choice(['none', '0.0', '298.15', repr(round(rng.uniform(100, 500), 2))])
+            yield Case([f'phaseref blank {tm} {tb}'], {})
+        elif r < 0.55: yield gen_chem_case(rng)
         elif r < 0.75: yield gen_fn_case(rng)
         else: yield gen_mix_case(rng)
 
@@ -907,7 +949,7 @@ def generate(rng, tier, index, nworkers):
 def corpus():
     return [
         Case(['meta']),
-        # _init_data: Sfus is computed from the constructor arguments only
+        # _init_data: Sfus = Hfus / Tm on the stored values (fix 7c3427a; before: constructor arguments only)
         Case(['sfus Water none none', 'sfus Water 6010.0 273.15', 'sfus Water 6010.0 none', 'sfus Ethanol none 159.05']),
         # water in its three reference phases, with and without a constructor-given Sfus
         Case(['chem db Water l', 'wiring', 'H l 298.15 101325.0', 'S l 298.15 101325.0', 'H g 400.0 101325.0', 'S g 400.0 50000.0',
@@ -918,6 +960,8 @@ def corpus():
         Case(['chem lock Water l', 'wiring', 'S l 298.15 101325.0', 'o:ref']),
         Case(['chem synth g 200.0 250.0 5000.0 25.0 20000.0 100.0 30.0,0.0,0.0 60.0,0.1,0.0 40.0,0.0,0.0', 'wiring',
               'H s 300.0 101325.0', 'S s 300.0 200000.0', 'S l 300.0 200000.0', 'S g 300.0 200000.0', 'o:ref', 'o:jumpTb', 'o:jumpTm']),
+        Case(['phaseref db Water', 'phaseref db CO2', 'phaseref blank 298.15 400.0', 'phaseref blank 200.0 298.15',
+              'phaseref blank none none', 'phaseref blank 400.0 none', 'phaseref blank 0.0 250.0']),
         # the doctest composition of IdealEntropyModel
         Case(['mix Water,Ethanol l 350.0 101325.0 0.0,1.0 1.0,0.0 2.0']),
     ]
